@@ -230,6 +230,7 @@ func rulePBNil(r *Run) {
 		r.Analysed(fn, len(paths))
 		for pi := range paths {
 			path := &paths[pi]
+			r.at(path)
 			nonNil := map[string]bool{}
 			report := func(x ast.Expr, at ast.Node, via string, holder *Func) {
 				se, ok := ast.Unparen(x).(*ast.SelectorExpr)
